@@ -165,3 +165,24 @@ def hyperbolic_triples(maxlab=12):
         if s < 1 - 1e-12:
             out.append((p, q, r))
     return out
+
+
+class Slow(Exception):
+    pass
+
+
+def limited(seconds, fn):
+    """run fn() with a CPU-time limit (SIGVTALRM; the runner's own watchdog uses SIGALRM); returns (done, value)"""
+    import signal
+
+    def h(sig, frm):
+        raise Slow()
+    old = signal.signal(signal.SIGVTALRM, h)
+    signal.setitimer(signal.ITIMER_VIRTUAL, seconds)
+    try:
+        return True, fn()
+    except Slow:
+        return False, None
+    finally:
+        signal.setitimer(signal.ITIMER_VIRTUAL, 0)
+        signal.signal(signal.SIGVTALRM, old)
